@@ -132,10 +132,13 @@ def a3(repo, res):
         loops = child_loops(fn)
         full = [lp for lp in loops if ast.unparse(lp.iter) in ("getattr(self, 'children', [])", "self.children", "self._children")]
         cond = any(isinstance(x, (ast.If, ast.Break, ast.Continue)) for lp in full for x in ast.walk(lp) if x is not lp)
+        early = [x for x in ast.walk(fn) if isinstance(x, ast.Return) and full and x.lineno < full[0].lineno]
+        cond = cond or bool(early)
         ok = bool(full) and not cond
         res.ob(f"A3:{prop}-setter:all-children", ok, {"rule": "A3", "setter": prop, "loops": [norm(l) for l in loops]})
         if not ok:
-            res.add(Finding("A3", geo.mod.rel, f"BaseGeo.{prop} (setter)", fn, "the setter must update every child unconditionally"))
+            res.add(Finding("A3", geo.mod.rel, f"BaseGeo.{prop} (setter)", fn, "the setter must update every child unconditionally (no early return before, no condition inside the children loop): "
+                            "children also have to follow a change of the path LENGTH"))
 
 
 def run(repo, res, tier):
